@@ -47,6 +47,11 @@ def op? : Sexp → Option Op
   | .atom "copy" => some .copy
   | .atom "fork" => some .copy
   | .atom "rt" => some .roundtrip
+  | .list [.atom "def", _viaReset, r] => do some (.define (← roi? r))
+  | .list [.atom "add", x, y] => do some (.addPoint (← num? x, ← num? y))
+  | .list [.atom "repl", x, y] => do some (.replaceLast (← num? x, ← num? y))
+  | .list [.atom "rem", x, y] => do some (.removePoint (← num? x, ← num? y))
+  | .list [.atom "forkadd", x, y] => do some (.forkAdd (← num? x, ← num? y))
   | _ => none
 
 /-- `(pts shape (x y) …)`, `(grid x0 dx nx y0 dy ny)` or `(rep k <pts>)` (the point set repeated
@@ -140,6 +145,13 @@ def opOkB (cur : Roi) : Op → Bool
        | .poly g => !closeFull (c * g.c + s * g.s) (s * g.c - c * g.s) ||
            (c * g.c + s * g.s == 1 && s * g.c - c * g.s == 0)
        | _ => true)
+  | .define new => new.defined && (match cur, new with
+       | .rect _, .rect _ | .circle _, .circle _ | .ellipse _, .ellipse _ | .annulus _, .annulus _
+       | .poly _, .poly _ => true
+       | .range a, .range b => a.isX == b.isX
+       | _, _ => false)
+  | .removePoint _ => (match cur with | .poly g => decide (2 ≤ g.vs.length) | _ => true)
+  | .forkAdd _ => (match cur with | .poly _ => false | _ => true)
   | _ => true
 
 def opsOkB : Roi → List Op → Bool
@@ -361,38 +373,50 @@ def stepContains (roiE ptsE epsE exactE pyout : Sexp) : String :=
         driverResult (.list [ofNats shape, ofBits out]) false true (inHyp roi (hypEps roi ε exact)) (roiKind roi ++ "/py-error")
   | _, _, _, _ => bad "contains-args"
 
+/-- Largest own size / largest coordinate magnitude over all regions the object describes along the
+operation list (a redefinition or a vertex edit changes both). -/
+def visitMax (f : Roi → Rat) : Roi → List Op → Rat
+  | cur, [] => f cur
+  | cur, op :: rest => rmax (f cur) (visitMax f (Impl.applyOp cur op) rest)
+
+def opTag : Op → String
+  | .define _ => "D" | .addPoint _ => "a" | .replaceLast _ => "r" | .removePoint _ => "x" | .forkAdd _ => "F"
+  | _ => ""
+
 def stepOps (roiE opsE ptsE epsE tolE pyout : Sexp) : String :=
   match roi? roiE, opsE.toList?.bind (·.mapM op?), pts? ptsE, num? epsE, num? tolE with
   | some roi, some ops, some (_, ps), some ε, some tolc =>
     let fin := Impl.applyOps roi ops
     let st := Spec.run roi ops
-    let pull := fun (p : PtO) => match finitePt roi p with
+    let base := st.roi
+    let pull := fun (p : PtO) => match finitePt base p with
       | some q => some (Spec.pullback st.motions q)
       | none => none
     let implFin := Impl.containsFn fin
     let implF := liftO fin implFin
     let specF := fun (p : PtO) => match pull p with
-      | some q => Spec.contains roi q
+      | some q => Spec.contains base q
       | none => false
     -- rounding bound for parameters that were themselves computed (`center()`, `x − cx`, `xmin += dx`,
     -- `R·(v − c) + c`): every visited centre enters, once per operation; a polygon's centroid carries the
     -- conditioning `κ²` of its shoelace sums.
-    let mag := ops.foldl (fun m o => match o with | .move t => rmax m (ptMag t) | _ => m) (roiMag roi)
+    let size := visitMax roiSize roi ops
+    let mag := ops.foldl (fun m o => match o with | .move t => rmax m (ptMag t) | _ => m) (visitMax roiMag roi ops)
     let kf := ((ops.length + 1 : Nat) : Rat) * centreTolFactor fin
     let ε := rmax ε (rmax (roiBranchTol fin) (skipTol roi ops))
     let band := fun (p : PtO) => match p with
-      | (some x, some y) => rmax ε (ulpK * kf * (mag + 2 * roiSize roi + ptMag (x, y)))
-      | (some x, none) => rmax ε (ulpK * kf * (mag + 2 * roiSize roi + rabs x))
-      | (none, some y) => rmax ε (ulpK * kf * (mag + 2 * roiSize roi + rabs y))
+      | (some x, some y) => rmax ε (ulpK * kf * (mag + 2 * size + ptMag (x, y)))
+      | (some x, none) => rmax ε (ulpK * kf * (mag + 2 * size + rabs x))
+      | (none, some y) => rmax ε (ulpK * kf * (mag + 2 * size + rabs y))
       | _ => ε
     let nearF := fun (p : PtO) => match pull p with
-      | some q => roi.near q (band p)
+      | some q => base.near q (band p)
       | none => false
     let mc := fin.center
-    let tolc := rmax tolc (ulpK * ((ops.length + 1 : Nat) : Rat) * (mag + 2 * roiSize roi)) * centreTolFactor fin
+    let tolc := rmax tolc (ulpK * ((ops.length + 1 : Nat) : Rat) * (mag + 2 * size)) * centreTolFactor fin
     let hyp := roi.defined && isUnit (Spec.orient roi).1 (Spec.orient roi).2 && opsOkB roi ops &&
       inHyp fin ε
-    let kinds := roiKind roi ++ "→" ++ roiKind fin
+    let kinds := roiKind roi ++ "→" ++ String.join (ops.map opTag) ++ roiKind fin
     match pyout with
     | .list [pbits, pc] =>
       match bits? pbits, centre? pc with
@@ -406,7 +430,7 @@ def stepOps (roiE opsE ptsE epsE tolE pyout : Sexp) : String :=
           | _, _ => false
         let cOut := if cEcho then pc else ofCentre mc
         driverResult (.list [ofBits out, cOut]) (ok && cOk) (implok && mc == st.ctr) hyp
-          (kinds ++ "/" ++ magBucket (roiSize roi) mag ++ "/" ++ bandBucket nb)
+          (kinds ++ "/" ++ magBucket size mag ++ "/" ++ bandBucket nb)
       | _, _ => driverResult (.list [ofBits (ps.map implF), ofCentre mc]) false true hyp (kinds ++ "/bad-py")
     | _ => driverResult (.list [ofBits (ps.map implF), ofCentre mc]) false true hyp (kinds ++ "/py-error")
   | _, _, _, _, _ => bad "ops-args"
